@@ -261,7 +261,12 @@ class Interp:
                 return self.read(p, key) if key is not None else TOP
             if e.get("t", "").endswith("]"):
                 return Ptr("arr:" + str(self.key_of(p, e)))
-            v = self.read(p, self.key_of(p, e))
+            kk = self.key_of(p, e)
+            if self.prog is not None and kk is not None:
+                gv = global_path(self.prog, fn, kk)
+                if gv is not NOGLOBAL:
+                    return gv
+            v = self.read(p, kk)
             if v is TOP and (e.get("r", "").endswith("_list_st") or e.get("r") == "KSI_List_st") and "(*)" in e.get("t", ""):
                 # list objects are only made by KSI_List_new, which fills the whole vtable (list.c)
                 return Ptr("vtbl:" + e["f"])
@@ -772,4 +777,55 @@ def global_element(prog, name, idx, unit=None):
         return TOP
     if size is not None and idx < size:
         return 0
+    return TOP
+
+
+def global_path(prog, fn, key):
+    """Value at an access path into a constant global / static local aggregate: 'tbl[2].field'."""
+    import re
+    m = re.match(r"^([A-Za-z_]\w*)((\[\d+\]|\.\w+)+)$", key)
+    if not m:
+        return NOGLOBAL
+    name = m.group(1)
+    lst = [g for g in prog.globals.get(name, []) if "init" in g and g.get("const") and (g["unit"] == fn.unit or not g.get("static"))
+           and (not g.get("slocal") or g.get("in") == fn.name)]
+    if len(lst) != 1:
+        return NOGLOBAL
+    node = lst[0]["init"]
+    for step in re.findall(r"\[\d+\]|\.\w+", m.group(2)):
+        node = strip(node)
+        if not isinstance(node, dict):
+            return NOGLOBAL
+        if step.startswith("["):
+            idx = int(step[1:-1])
+            if node.get("k") == "arr":
+                if idx < len(node["e"]):
+                    node = node["e"][idx]
+                elif node.get("size") and idx < node["size"]:
+                    return 0
+                else:
+                    return TOP
+            else:
+                return NOGLOBAL
+        else:
+            if node.get("k") == "rec" and step[1:] in node["f"]:
+                node = node["f"][step[1:]]
+            else:
+                return NOGLOBAL
+    node = strip(node)
+    while isinstance(node, dict) and node.get("k") == "cast":
+        node = strip(node["e"])
+    if not isinstance(node, dict):
+        return NOGLOBAL
+    k = node.get("k")
+    if k == "int":
+        return node["v"] if isinstance(node["v"], int) else int(node["v"])
+    if k == "null" or k == "zero":
+        return 0
+    if k == "str":
+        return Ptr("str:" + str(node.get("v", "")))
+    if k == "var" and node.get("s") == "fn":
+        return Ptr("fn:" + node["n"])
+    if k == "var":
+        return Ptr("arr:" + node["n"])
     return TOP
